@@ -28,6 +28,17 @@ WEIGHTS = {"p_create": 0.5, "p_edit": 0.25, "p_ro": 0.0, "nested": 0.5, "sf": 0.
 
 
 def generate(rng, tier):
+    if rng.random() < 0.006:
+        # a generation with more than a thousand records
+        from .. import gen
+
+        env = gen.gen_env(rng)
+        env["read_profile"] = "full"
+        tree = {"reel": {"t": "d"}, "notes & report.txt": {"t": "f", "c": gen.unique_content(rng)}}
+        for i in range(rng.randint(1001, 1040)):
+            tree["reel/frame_%06d.dpx" % i] = {"t": "f", "c": {"gen": [i, 9]}}
+        env["tree"] = tree
+        return {"world": env, "ops": [scen.cmd("create", "@R", "-h", rng.choice(["md5", "xxh64"]))]}
     return explore.generate(rng, tier, WEIGHTS, hostile=0.35)
 
 
